@@ -9,9 +9,13 @@ if HERE not in sys.path:
 warnings.filterwarnings("ignore")
 os.environ.setdefault("OMP_NUM_THREADS", "1")
 
+REPO = os.environ.get("VERIF_REPO", "/repo")   # VERIF_REPO: run against a scratch worktree (own testing only)
+if REPO != "/repo":
+    sys.path.insert(0, REPO)
+
 if __name__ == "__main__":
     from sim import runner
-    # flowpaths must come from /repo's working tree
+    # flowpaths must come from the repository's current working tree
     import flowpaths
-    assert os.path.realpath(flowpaths.__file__).startswith("/repo/"), flowpaths.__file__
+    assert os.path.realpath(flowpaths.__file__).startswith(os.path.realpath(REPO) + "/"), flowpaths.__file__
     sys.exit(runner.main(sys.argv[1:]))
